@@ -24,7 +24,7 @@ structure Core (s : State) (r : Id) (up : List Id) (ph : Phase) : Prop where
   rnd : (s.dom.childrenOf r).Nodup
   kids : ∀ c ∈ s.dom.childrenOf r, KidOkR s.dom c
   elems : ElemsOk s.dom s.headElem r ph
-  bh : ∀ y ∈ up.tail, htmlIn (nm s.dom y) ["html", "body", "head"] = false
+  bh : ∀ y ∈ up.tail, htmlIn (nm s.dom y) ["html", "body", "head", "frameset"] = false
 
 /-- **the stack-shape invariant** -/
 structure ShapeAt (s : State) (r : Id) (up : List Id) (ph : Phase) : Prop where
@@ -60,6 +60,9 @@ theorem Fits.congr {d d' : Dom} {head : Option Id} {m : Mode} {up : List Id} {ph
   all_goals first
     | exact ⟨h.1.congr hn, h.2.congr hn⟩
     | skip
+  · -- inHeadNoscript
+    obtain ⟨hh, x, h1, h2, h3, h4⟩ := h
+    exact ⟨hh, x, h1, h2, h3, by rw [hn x (by rw [h2]; simp)]; exact h4⟩
   · -- inFrameset
     obtain ⟨fs, up', h1, h2, h3⟩ := h
     exact ⟨fs, up', h1, h2, fun x hx => by rw [hn x hx]; exact h3 x hx⟩
@@ -170,8 +173,9 @@ theorem FitsM.transfer {s s' : State} {up : List Id} {ph : Phase} (hf : FitsM s 
   all_goals first
     | exact hf.congr hsnu
     | skip
-  · obtain ⟨om, up0, x, h1, h2, h3, h4, h5⟩ := hf
-    exact ⟨om, up0, x, h1, h2, h3, h4, h5.congr (fun y hy => hsnu y (by rw [h2]; simp [hy]))⟩
+  · obtain ⟨om, up0, x, h1, h2, h3, h4, h5, h6⟩ := hf
+    exact ⟨om, up0, x, h1, h2, h3, h4, h5.congr (fun y hy => hsnu y (by rw [h2]; simp [hy])),
+      by rw [hsnu x (by rw [h2]; simp)]; exact h6⟩
   · obtain ⟨om, h1, h2, h3⟩ := hf
     exact ⟨om, h1, h2, h3.congr hsnu⟩
 
